@@ -1,5 +1,6 @@
 import Receptor.Drive.Util
 import Receptor.Model.Results
+import Receptor.Model.Crash
 import Receptor.Generated.Facts
 namespace Receptor.Drive.Mirror
 open Lean Receptor.Drive Receptor.Results
@@ -32,6 +33,21 @@ def handle (op : String) (a r : Json) : Except String Reply := do
     let total := m.remote.length
     let mj := jObj [("total", jNat total), ("local_len", jNat m.loc.length), ("equal", Json.bool (m.loc == m.remote && prefixOK)), ("caught_up", Json.bool true),
                     ("not_prefix", Json.str ""), ("local_state", jNat 2), ("local_size", jNat total), ("nontrivial", Json.bool true)]
+    -- C04: the submitting node restarted with the link down, after the copy was complete — what the restarted node
+    -- reports is what `restartView` makes of the record on disk; the output file is untouched
+    let restartA := (getBool a "restart_a").toOption.getD false
+    let afterSpec : Json :=
+      match Receptor.Crash.restartView 1 [1, 2, 3]
+          { dir := true, status := .full { wt := 1, state := 2, size := total, remote := some 1, started := true } } with
+      | .listed w st sz rm =>
+        jObj [("listed", Json.bool true), ("wt", Json.str (if w == 1 then "remote" else "?")), ("node", Json.str (if rm.isSome then "mirB" else "")),
+              ("remote_unit", Json.bool rm.isSome), ("state", jNat st), ("size", jNat sz), ("local_len", jNat total), ("equal", Json.bool true),
+              ("results_len", jNat total)]
+      | .notListed => jObj [("listed", Json.bool false)]
+    let mj := if restartA then mj.setObjVal! "after_restart" afterSpec else mj
+    let afterOK := !restartA || (match optField r "after_restart" with
+      | some o => canonEq o afterSpec
+      | none => false)
     let notPrefix := (getStr r "not_prefix").toOption.getD "?"
     let equal := (getBool r "equal").toOption.getD false
     let caught := (getBool r "caught_up").toOption.getD false
@@ -40,6 +56,9 @@ def handle (op : String) (a r : Json) : Except String Reply := do
       if notPrefix != "" then (false, s!"while the output of a remote unit was mirrored across link cuts: {notPrefix}", "C05/mirror-not-a-prefix")
       else if !caught then (false, s!"the local copy of a finished remote unit never caught up ({localLen} of {total} bytes)", "C05/mirror-never-complete")
       else if !equal then (false, s!"the local copy of a finished remote unit differs from the remote output ({localLen} of {total} bytes)", "C05/mirror-differs")
+      else if !afterOK then
+        (false, s!"a finished remote unit whose output had been copied completely: after a restart of the submitting node (executing node unreachable) it no longer reports the same state and size, or its output ({total} bytes) can no longer be fetched: {((optField r "after_restart").getD Json.null).compress}",
+         "C04/finished-remote-unit-changed-by-restart")
       else (true, "", "")
     -- when the source asks from a stale offset the model of the source is the witness `session … off < loc.length`:
     -- duplicates; how many depends on timing
